@@ -4,12 +4,18 @@ markdown table for DESIGN.md §I.6."""
 import json, os, re, sys
 V = os.path.dirname(os.path.dirname(os.path.abspath(__file__)))
 matrix = {}
+sibling = {}   # lines "C03-r2-2 @C18 | VIOLATION ..." = the seed run through another property's check
 for src in sys.argv[1:]:
     for line in open(src):
         if " | " in line:
             k, r = line.split(" | ", 1)
-            matrix[k.strip()] = r.strip()
-rows = []
+            k = k.strip()
+            if " @" in k:
+                k, other = k.split(" @")
+                sibling.setdefault(k.strip(), {})[other.strip()] = r.strip()[:200]
+            else:
+                matrix[k] = r.strip()
+rows = {1: [], 2: [], 3: []}
 for d in sorted(os.listdir(os.path.join(V, "seeded"))):
     mp = os.path.join(V, "seeded", d, "meta.json")
     if not os.path.exists(mp):
@@ -27,12 +33,21 @@ for d in sorted(os.listdir(os.path.join(V, "seeded"))):
         else:
             m["check_result"] = {"caught": None, "line": r[:120]}
         json.dump(m, open(mp, "w"), indent=1)
+    if d in sibling:
+        m["sibling_check_results"] = {o: {"caught": l.startswith("VIOLATION"), "line": l} for o, l in sibling[d].items()}
+        json.dump(m, open(mp, "w"), indent=1)
     cr = m.get("check_result", {})
     mark = "✔" if cr.get("caught") else ("✘ (quick tier, seed 0)" if cr.get("caught") is False else "?")
     if cr.get("only_correspondence"):
         mark = "✔corr"
+    sib = [o for o, v in m.get("sibling_check_results", {}).items() if v.get("caught")]
+    if sib and not cr.get("caught"):
+        mark += " — caught by " + ", ".join(sorted(sib))
     first = (m.get("needs_to_manifest") or "").strip().split("\n")
     desc = " ".join(x.strip() for x in first[:3])[:150].replace("|", "/")
-    rows.append(f"| {d} | {', '.join(files)} | {desc} | {mark} |")
-print("| seed | file(s) changed | from the author's notes | owning check (quick) |\n|---|---|---|---|")
-print("\n".join(rows))
+    rows[m.get("round", 1)].append(f"| {d} | {', '.join(files)} | {desc} | {mark} |")
+for rnd in (1, 2, 3):
+    if rows[rnd]:
+        print(f"\nRound {rnd}:\n")
+        print("| seed | file(s) changed | from the author's notes | owning check (quick) |\n|---|---|---|---|")
+        print("\n".join(rows[rnd]))
